@@ -52,7 +52,8 @@ class Spec(object):
         self.events = events
         self.foreign = foreign
         self.adds = [("add", e, p, s) for e in events for p in priorities for s in stop_kinds]
-        self.disp = [("dispatch", e) for e in events + foreign]
+        # "dispatch": the caller passes its own Event; "dispatch0": no event given (the dispatcher creates one)
+        self.disp = [("dispatch", e) for e in events + foreign] + [("dispatch0", e) for e in events]
         self.qops = [("get_listeners", e) for e in events[:1]] + [("get_listeners_all",)] if query_ops else []
 
     def init(self):
@@ -83,11 +84,14 @@ class Spec(object):
             tag = len(st.regs)
             st.d.add_listener(e, L(tag, bool(s)), p)
             st.regs.append((e, p, bool(s), tag))
-        elif op[0] == "dispatch":
+        elif op[0] in ("dispatch", "dispatch0"):
             e = op[1]
             del LOG[:]
-            ev = Event()
-            ret = st.d.dispatch(e, ev)
+            if op[0] == "dispatch":
+                ev = Event()
+                ret = st.d.dispatch(e, ev)
+            else:
+                ret = ev = st.d.dispatch(e)
             got = list(LOG)
             del LOG[:]
             exp = []
@@ -111,8 +115,10 @@ class Spec(object):
                                       None, exp, got_tags))
             elif any(g[1] != e or g[2] is not st.d for g in got):
                 vs.append(report.viol("listener-args", "listener not called with (event, name, dispatcher)", None))
-            elif ret is not ev:
-                vs.append(report.viol("dispatch-return", "dispatch does not return the event it was given", None))
+            elif ret is not ev or not isinstance(ret, Event):
+                vs.append(report.viol("dispatch-return", "dispatch does not return the event it was given / an Event", None))
+            elif ret.is_propagation_stopped() != any(r[2] for r in self.expected_order(st, e)):
+                vs.append(report.viol("dispatch-stopped-flag", "returned event's stopped flag does not match the listeners that ran", None))
         elif op[0] == "get_listeners":
             st.d.get_listeners(op[1])
         elif op[0] == "get_listeners_all":
@@ -157,6 +163,7 @@ class Spec(object):
 
 
 FULL = dict(events=["a", "b"], foreign=["c"], priorities=[-1, 0, 5], stop_kinds=[0, 1])
+CORE = dict(events=["a", "b"], foreign=["c"], priorities=[0, 5], stop_kinds=[0, 1])
 REDUCED = dict(events=["a"], foreign=["c"], priorities=[0, 5], stop_kinds=[0, 1])
 
 
@@ -173,14 +180,15 @@ def main():
     t = rep.tier
     extra_prio = [3, -7, 100, 1][rep.seed % 4]  # VERIF_SEED rotates one extra priority into the reduced alphabet
     runs = []
+    red = dict(REDUCED, priorities=[0, 5, extra_prio])
     if t == "thorough":
-        runs.append(("full", Spec(**FULL), 6, 2, True))
-        red = dict(REDUCED, priorities=[0, 5, extra_prio])
+        runs.append(("full", Spec(**FULL), 5, 2, True))
+        runs.append(("core", Spec(**CORE), 6, 2, True))
         runs.append(("reduced", Spec(**red), 8, 2, True))
         runs.append(("full-nodedup", Spec(**FULL), 4, 1, False))
     else:
-        runs.append(("full", Spec(**FULL), 5, 2, True))
-        red = dict(REDUCED, priorities=[0, 5, extra_prio])
+        runs.append(("full", Spec(**FULL), 4, 2, True))
+        runs.append(("core", Spec(**CORE), 5, 2, True))
         runs.append(("reduced", Spec(**red), 6, 2, True))
         runs.append(("full-nodedup", Spec(**FULL), 3, 1, False))
     tot_s = tot_t = 0
